@@ -126,7 +126,10 @@ type ScriptedValidator struct {
 	Methods []revresult.RevocationMethod
 	Err     error
 	Short   int // >0: answer with only this many results; -1: nil slice, nil error
-	Calls   []revocation.ValidateContextOptions
+	// ErrWithResults: Err is returned TOGETHER with the result vector (a caching or wrapping
+	// validator handing out what it has along with the error of its refresh)
+	ErrWithResults bool
+	Calls          []revocation.ValidateContextOptions
 	Legacy  int // calls through the deprecated interface
 }
 
@@ -135,7 +138,7 @@ func (v *ScriptedValidator) answer(chain []*x509.Certificate) ([]*revresult.Cert
 	if d.Err != nil {
 		return nil, fmt.Errorf("simulated: revocation service unreachable: %w", d.Err)
 	}
-	if v.Err != nil {
+	if v.Err != nil && !v.ErrWithResults {
 		return nil, v.Err
 	}
 	if v.Short == -1 {
@@ -168,6 +171,9 @@ func (v *ScriptedValidator) answer(chain []*x509.Certificate) ([]*revresult.Cert
 	}
 	if v.Short > 0 && v.Short < len(out) {
 		out = out[:v.Short]
+	}
+	if v.Err != nil {
+		return out, v.Err
 	}
 	return out, nil
 }
